@@ -1,29 +1,62 @@
 """C02 — a patch never touches configuration outside the ACL. impl: api._diff_and_patch with acl_rules (real), cmd_paths
 executed on the device specification; model: Annet.AclDiff.deviceModeAcl; oracle: (a) every command path is ACL-covered
-level by level, (b) uncovered rows of old survive with their subtree, (c) cant_delete rows survive."""
+level by level, (b) uncovered rows of old survive with their subtree, (c) cant_delete rows survive.
+
+kind=glue (harness/c02glue.py): the same three clauses on the patch that the WHOLE glue produces for one device -
+synthetic generators with acl_<vendor>() literals -> real gen._old_new_per_device (device config as text) -> real
+api._diff_and_patch(res.get_old(), res.get_new(), res.get_acl_rules(), ...) - judged against the ACL the harness combines
+itself from the generators' literals (own dedent, own tagging, own reading of who takes part); the Lean model gets the
+harness-combined ACL and the harness-merged generator output."""
+import json
 import random
 
 from harness import rbgen, device
-from harness.props import c06, c16, c01
+from harness import c02glue as glue
+from harness.props import c06, c16, c01, c10
 
 ID = "C02"
 RULE = ("(rulebook, ordering, vendor, ACL text(s), old, new): rulebooks/configs as in C01; ACLs over the same vocabulary "
         "(nesting<=3, *, ~, %global, %cant_delete=0/1, %prio, 1-3 generator ACLs merged with %generator_names tagging), so "
         "that configs contain covered rows, uncovered rows next to them and rows covered only in negated form;" +
-        rbgen.SMALL_RULE % (", under eight small ACLs", " (a seed-rotated quarter per run)") + " non-trivial = "
+        rbgen.SMALL_RULE % (", under eight small ACLs", " (a seed-rotated quarter per run)") +
+        "; kind=glue: (rulebook, vendor of huawei/cisco/arista/nexus/b4com, device config TEXT, 1-4 synthetic PartialGenerator "
+        "classes, --no-acl-exclusive on/off, --clear on/off): each generator = acl_<vendor>() literal written as an indented "
+        "triple-quoted block (margins 0..16, equal or different between generators, blank lines, trailing blanks) + op list "
+        "(blocks, single yields, indented multi-line yields) yielding the part of the intended config its own ACL covers; "
+        "modes ok / other-vendor / raises NotSupportedDevice / no acl_<vendor> / acl returns None / blank literal; families "
+        "random (ACLs as above), levels (one generator owns a block of the device and some of its children, another one "
+        "owns, at top level, rules that also match that block's children), interface (built-in cant_delete default), "
+        "unsupported (no generator contributes an ACL line); non-trivial = "
         "the patch has >=2 commands and old has >=1 covered and >=1 uncovered row; distinct = distinct case")
 TRUSTED_BASE = [
     "Lean 4.33 kernel; axioms per theorem listed (subset of propext, Classical.choice, Quot.sound)",
     "Spec/Device.lean (device specification) and its Python twin harness/device.py (cross-checked in C01)",
     "rule rows matched by Model/Pattern.lean (tied to CPython re by C07); ACL model tied by C06",
     "harness/rbgen.py, harness/props/c06.py (ACL generator) + harness/props/c02.py and the compiled Lean driver",
+    "kind=glue: harness/c02glue.py (reference reading of the generators: who takes part, own dedent, own tagging; stub "
+    "device/storage and op-list interpreter of harness/props/c10.py, its independent reading spec_paths of the op lists); "
+    "the reference ACL text is compiled and matched by the real acl.compile_acl_text / patching.match_row_to_acl (tied by C06)",
 ]
 ASSUMPTIONS = ["block-structured vendors", "common logics", "no filter-ACL (filter_acl_rules=None), add_comments=False",
-               "ACL rows inside the rule grammar"]
+               "ACL rows inside the rule grammar",
+               "kind=glue: no acl_safe, no implicit rules, no annotations, no Entire/JSON_FRAGMENT/Ref generators; the device "
+               "text reads back (vendor formatter + tabparser) as the case's old tree, else the case is counted and skipped; "
+               "distinct generator class names"]
+
+
+_READY = []
 
 
 def setup_worker():
     c16.setup_worker()
+    if not _READY:
+        # c10's driver of _old_new_per_device (stub device, generator interpreter) re-installs the default rulebook
+        # provider; the generated rulebooks of the other kinds are served by c16's provider: put it back
+        c10.setup_worker()
+        from annet.rulebook import rulebook_provider_connector
+        rulebook_provider_connector._classes = [c16._PROV]
+        rulebook_provider_connector._cache = None
+        _READY.append(True)
 
 
 SMALL_ACLS = [["a *\n    x *\n"], ["a *\n"], ["a 1\n    x *\n", "b\n"], ["a *  %cant_delete=1\n    x *\n"],
@@ -40,6 +73,9 @@ def shards(tier, seed):
     else:
         # a quarter of the 2.6M cases per run, rotated by the seed
         out += [dict(kind="small", part=(seed * 64 + i) % 256, parts=256) for i in range(64)]
+    # the whole glue: generators -> _old_new_per_device -> _diff_and_patch
+    n = GLUE_N[tier]
+    out += [dict(kind="glue", seed=seed * 1000 + 500 + i, n=n) for i in range(16)]
     return out
 
 
@@ -106,7 +142,124 @@ def interface_case(rng, c, pre):
     c["old"], c["new"] = old, new
 
 
+# ------------------------------------------------------------------ kind=glue: case generator
+GLUE_N = {"quick": 150, "thorough": 4000}
+GLUE_VENDORS = ["huawei", "cisco", "arista", "nexus", "b4com"]
+GLUE_OFF = ["other-vendor", "raises", "no-acl-func", "acl-none", "acl-blank"]
+
+
+def _covered_part(tree, plain, vendor):
+    """generation only: the part of the intended config that the generator's own ACL lets through (a generator that
+    yields anything else is stopped by annet with an AclError)"""
+    from annet.annlib import patching
+    from annet.annlib.rbparser import acl
+    try:
+        return rbgen.to_list(patching.apply_acl(rbgen.to_odict(tree), acl.compile_acl_text(plain, vendor)))
+    except Exception:  # noqa
+        return []
+
+
+def _uniq(lines):
+    """drop repeated top-level rules (with their sub-rules) of one ACL text"""
+    out, seen, skip = [], set(), False
+    for d, t in lines:
+        if d == 0:
+            skip = t.split("  %")[0] in seen
+            seen.add(t.split("  %")[0])
+        if not skip:
+            out.append((d, t))
+    return out
+
+
+def _soften(rng, row):
+    ws = row.split(" ")
+    return rng.choice([row, row, ws[0] + " ~", ws[0] + " ~", " ".join(ws[:-1] + ["*"]) if len(ws) > 1 else row])
+
+
+def levels_acls(rng, c, pre, prows):
+    """one generator owns a block of the device (and some of its children), another one owns - at TOP level - rules that
+    also match children of that block: those children are nobody's"""
+    blocks = [(row, ch) for row, ch in c["old"] if ch]
+    if not blocks:
+        return None
+    row, ch = rng.choice(blocks)
+    head = rng.choice([row, row, row.split(" ")[0] + " ~"])
+    if rng.random() < 0.2:
+        head += "  %cant_delete=" + rng.choice(["0", "1"])
+    own = [(0, head)] + [(1, _soften(rng, k)) for k, _ in ch if rng.random() < 0.4]
+    before = acl_lines(rng, pre, prows) if rng.random() < 0.5 else []
+    g1 = _uniq(before + own) if rng.random() < 0.7 else _uniq(own + before)
+    kids = [(0, _soften(rng, k)) for k, _ in ch if rng.random() < 0.7]
+    for _, sub in ch:
+        kids += [(0, _soften(rng, k)) for k, _ in sub if rng.random() < 0.5]
+    if not kids:
+        kids = [(0, _soften(rng, ch[0][0]))]
+    extra = acl_lines(rng, pre, prows) if rng.random() < 0.5 else []
+    g2 = _uniq(kids + extra) if rng.random() < 0.7 else _uniq(extra + kids)
+    texts = [c06.render(g1), c06.render(g2)]
+    if rng.random() < 0.3:
+        texts.reverse()
+    if rng.random() < 0.3:
+        texts.insert(rng.randint(0, 2), c06.render(acl_lines(rng, pre, prows)))
+    return texts
+
+
+def glue_case(rng):
+    c = rbgen.gen_case(rng, one_per_key=True)
+    c["vendor"] = vendor = rng.choice(GLUE_VENDORS)
+    pre = rbgen.vendor_info(vendor)["reverse"]
+    prows = [r for r in rbgen.rule_rows([(0, l.strip()) for l in c["ptext"].split("\n") if l.strip()]) if "." not in r]
+    r = rng.random()
+    family = "unsupported" if r < 0.12 else "levels" if r < 0.45 else "interface" if r < 0.57 else "random"
+    plains = None
+    if family == "interface":
+        interface_case(rng, c, pre)
+        plains = list(c["acl_texts"])
+    elif family == "levels":
+        plains = levels_acls(rng, c, pre, prows)
+        if plains is None:
+            family = "random"
+    if plains is None:
+        plains = [c06.render(acl_lines(rng, pre, prows)) for _ in range(rng.choice([1, 2, 2, 3, 3, 4]))]
+    if family != "interface" and rng.random() < 0.1:
+        c["new"] = negate_some(rng, c["old"], c["new"], pre)
+    # where the literals sit in their (imaginary) source files: all at the usual method-body margin, anywhere, or each
+    # one block deeper / shallower than the one before
+    base = rng.choice([0, 4, 8, 8, 12])
+    layout = rng.choice(["equal", "equal", "mixed", "mixed", "mixed", "deeper", "deeper", "shallower"])
+    gens = []
+    for i, plain in enumerate(plains):
+        if layout == "equal":
+            margin = base
+        elif layout == "mixed":
+            margin = base if rng.random() < 0.5 else rng.choice([0, 4, 8, 12, 16])
+        else:
+            margin = max(0, base + 4 * i * (1 if layout == "deeper" else -1))
+        if family == "unsupported":
+            mode = rng.choice(GLUE_OFF)
+        else:
+            mode = "ok" if rng.random() < 0.8 else rng.choice(GLUE_OFF)
+        lit = glue.literal(rng, plain, margin)
+        if mode == "acl-blank":
+            lit = rng.choice(["", "\n", "\n" + " " * margin + "\n" + " " * margin, "   "])
+        elif mode in ("no-acl-func", "acl-none"):
+            lit = None
+        tree = _covered_part(c["new"], plain, vendor) if mode in ("ok", "other-vendor", "raises") else []
+        ops = glue.ops_of(rng, tree)
+        if mode == "ok" and rng.random() < 0.02:
+            ops.append(["y", "zz outside-own-acl"])      # the generator is stopped with an AclError
+        gens.append(dict(name="G%d" % i, mode=mode, acl=lit, ops=ops))
+    return dict(kind="glue", family=family, vendor=vendor, ptext=c["ptext"], otext=c["otext"], old=c["old"], gens=gens,
+                exclusive=rng.random() < 0.4, no_new=rng.random() < 0.08)
+
+
 def gen(desc):
+    if desc.get("kind") == "glue":
+        setup_worker()
+        rng = random.Random(desc["seed"])
+        for _ in range(desc["n"]):
+            yield glue_case(rng)
+        return
     if desc.get("kind") == "small":
         # one slice = whole config pairs, each under all eight ACLs one after the other (ACLs that share rule texts but
         # differ below them follow each other in one process)
@@ -168,11 +321,107 @@ def run(case):
         c16._PROV.table.pop(hw.vendor + "|" + hw.tag, None)
 
 
+# ------------------------------------------------------------------ kind=glue: real code, reference view, model
+def run_glue(case):
+    """generators -> real gen._old_new_per_device -> real api._diff_and_patch, the way api.res_diff_patch chains them"""
+    from annet import api
+    from annet.annlib import patching
+    from annet.generators import GeneratorError
+    from annet.vendors import registry_connector
+    setup_worker()
+    try:
+        if glue.parsed_old(case) != case["old"]:
+            return {"err": "harness:device-text-reads-back-differently"}
+    except Exception as e:  # noqa
+        return {"err": "harness:device-text-unreadable:" + type(e).__name__}
+    rb = rbgen.compile_rb(case["ptext"], case["otext"], case["vendor"])
+    try:
+        dev, res = glue.run_old_new(case)
+    except GeneratorError as e:
+        return {"err": "GeneratorError:" + type(e.__cause__).__name__}
+    except patching.AclNotExclusiveError:
+        return {"err": "AclNotExclusiveError"}
+    except Exception as e:  # noqa   (an ACL literal the ACL compiler rejects)
+        return {"err": "raised:" + type(e).__name__}
+    if res.err:
+        return {"err": "result.err:" + type(res.err).__name__}
+    try:
+        diff, pt = api._diff_and_patch(dev, res.get_old(False), res.get_new(False), res.get_acl_rules(False),
+                                       res.filter_acl_rules, False, rb=rb)
+    except AssertionError:
+        return {"err": "AssertionError"}
+    fmt = registry_connector.get().match(dev.hw).make_formatter(indent="")
+    paths = [list(p) for p in fmt.cmd_paths(pt).keys()]
+    return {"patch": rbgen.dump_patch(pt), "stripped": rbgen.dump_diff(diff), "paths": paths}
+
+
+def glue_view(case):
+    """the case as the property reads it: (old, new, A) with A = the ACL text the harness combines itself from the
+    generators' literals and new = what the participating generators yield; None = outside the reference's domain"""
+    new = glue.ref_new(case)
+    if new is None:
+        return None
+    return dict(vendor=case["vendor"], ptext=case["ptext"], otext=case["otext"], old=case["old"], new=new,
+                acl_texts=[glue.ref_combined(case)], tagged=False)
+
+
+def glue_requests(case):
+    view = glue_view(case)
+    if view is None:
+        return []
+    info = rbgen.vendor_info(case["vendor"])
+    av = dict(reverse=info["reverse"], juniper=False)
+    reqs = []
+    try:
+        if not case.get("no_new"):
+            for g in glue.participating(case):
+                # _run_partial_generator: the generator's output under its own ACL, fatal
+                reqs.append(dict(op="c06.apply", trees=c06.raw_trees("".join(l + "\n" for l in glue.ref_acl_lines(g))),
+                                 vendor=av, fatal=True, exclusive=False, config=glue.ref_yielded(g, case["vendor"])))
+        trees = c06.raw_trees(view["acl_texts"][0])
+    except Exception:  # noqa
+        return []
+    # _old_new_per_device: the merged output under the combined ACL, exclusive unless --no-acl-exclusive
+    reqs.append(dict(op="c06.apply", trees=trees, vendor=av, fatal=False, exclusive=bool(case.get("exclusive", True)),
+                     config=view["new"]))
+    reqs.append(rbgen.job_request("c02.patch", view, acl_trees=trees, acl_vendor=av))
+    return reqs
+
+
+def glue_model(case, resp):
+    if any(r.get("grammar") is False for r in resp):
+        return {"skip": True}
+    gens = [] if case.get("no_new") else glue.participating(case)
+    for g, r in zip(gens, resp):
+        if "err" in r:
+            return {"err": "GeneratorError:" + r["err"]}
+        if r["ok"] != glue.ref_yielded(g, case["vendor"]):
+            return {"skip": True}       # a yielded line hidden by its own ACL (negated form of a cant_delete rule)
+    if "err" in resp[-2]:
+        return {"err": resp[-2]["err"]}
+    r = resp[-1]
+    if "err" in r:
+        return {"err": r["err"]}
+    real = _GLUE_MEMO.get(json.dumps(case, sort_keys=True)) or run_glue(case)
+    return {"patch": r["patch"], "stripped": r["stripped"], "paths": real.get("paths")}
+
+
+_GLUE_MEMO = {}     # real results of the current batch (the model side only needs the command paths of the real patch)
+
+
 def impl(case):
+    if case.get("kind") == "glue":
+        r = run_glue(case)
+        if len(_GLUE_MEMO) >= 6000:
+            _GLUE_MEMO.clear()
+        _GLUE_MEMO[json.dumps(case, sort_keys=True)] = r
+        return r
     return run(case)[0]
 
 
 def requests(case):
+    if case.get("kind") == "glue":
+        return glue_requests(case)
     c16.setup_worker()
     text = c06.combine(case["acl_texts"], case["tagged"])
     try:
@@ -185,6 +434,8 @@ def requests(case):
 
 
 def model(case, resp):
+    if case.get("kind") == "glue":
+        return glue_model(case, resp)
     r = resp[0]
     if r.get("grammar") is False:
         return {"skip": True}
@@ -282,12 +533,61 @@ def same_slot_present(after, path, rules):
     return any(slot_at(rules, list(path[:-1]) + [row]) == want for row, _ in parent)
 
 
+GLUE_SIG_EMPTY = "glue-no-generator-acl-yet-device-lines-touched"
+GLUE_SIG_MARGINS = "glue-acl-literals-of-different-margins-combined-into-another-acl"
+GLUE_SIG_OTHER = "glue-patch-leaves-the-independently-combined-acl"
+
+
+def glue_sig(case):
+    """which part of the glue is at fault is read off the CASE (the core, given the harness-combined ACL, keeps the
+    clause on this very input): no participating generator has an ACL line at all / the generators' literals sit at
+    different margins / anything else"""
+    if not glue.ref_combined(case).strip():
+        return GLUE_SIG_EMPTY
+    if len(set(glue.margins(case))) > 1:
+        return GLUE_SIG_MARGINS
+    return GLUE_SIG_OTHER
+
+
+def glue_oracle(case, r):
+    from annet.annlib.rbparser import acl
+    setup_worker()
+    if "err" in r:
+        return []
+    view = glue_view(case)
+    if view is None:
+        return []
+    try:
+        acl_rules = acl.compile_acl_text(view["acl_texts"][0], case["vendor"])
+    except Exception:  # noqa   the reference text itself is not an ACL: nothing to judge the patch against
+        return []
+    rb = rbgen.compile_rb(case["ptext"], case["otext"], case["vendor"])
+    out = check_clauses(view, r, rb, acl_rules)
+    if out:
+        # the same (old, new, A) through api._diff_and_patch alone: a clause that fails there too is the core's
+        core = run(view)[0]
+        core_sigs = set() if "err" in core else {v["sig"] for v in check_clauses(view, core, rb, acl_rules)}
+        for v in out:
+            if v["sig"] not in core_sigs:
+                v["what"] = "[%s] %s (combined ACL of the generators, read independently: %r)" % (
+                    v["sig"], v["what"], view["acl_texts"][0])
+                v["sig"] = glue_sig(case)
+    return out
+
+
 def oracle(case, r):
-    from annet.vendors import registry_connector
+    if case.get("kind") == "glue":
+        return glue_oracle(case, r)
     c16.setup_worker()
     if "err" in r:
         return []
     _, rb, acl_rules = run(case)
+    return check_clauses(case, r, rb, acl_rules)
+
+
+def check_clauses(case, r, rb, acl_rules):
+    """clauses (a), (b), (c) for the patch r of (case.old, case.new) under the ACL acl_rules (text: case.acl_texts)"""
+    from annet.vendors import registry_connector
     rules = rb["patching"]
     if not c01.one_row_per_key(case["old"], rules) or not c01.one_row_per_key(case["new"], rules):
         return []
@@ -396,7 +696,32 @@ def nontrivial(case, r):
     return "paths" in r and len(r["paths"]) >= 2
 
 
+def glue_stats(case, r):
+    part = glue.participating(case)
+    ms = glue.margins(case)
+    lab = ["kind=glue", "glue:vendor=" + case["vendor"], "glue:family=" + case["family"],
+           "glue:generators=%d" % len(case["gens"]), "glue:participating=%d" % len(part),
+           "glue:combined-acl=" + ("empty" if not glue.ref_combined(case).strip() else "non-empty"),
+           "glue:literal-margins=" + ("none" if not ms else "equal" if len(set(ms)) == 1 else
+                                      "deeper-after-shallower" if any(b > a for a, b in zip(ms, ms[1:])) else
+                                      "shallower-after-deeper")]
+    lab += sorted({"glue:generator-mode=" + g["mode"] for g in case["gens"]})
+    if case.get("no_new"):
+        lab.append("glue:--clear")
+    lab.append("glue:acl-exclusive=" + ("on" if case.get("exclusive", True) else "off"))
+    if "err" in r:
+        lab.append("glue:result=" + r["err"])
+    else:
+        n = len(r["paths"])
+        lab.append("glue:cmds=%s" % ("0" if n == 0 else "1-3" if n <= 3 else "4-9" if n <= 9 else "10+"))
+        if n and len(part) < len(case["gens"]):
+            lab.append("glue:patch-with-some-generator-left-out")
+    return lab
+
+
 def stats(case, r):
+    if case.get("kind") == "glue":
+        return glue_stats(case, r)
     lab = ["vendor=" + case["vendor"], "acl-generators=%d" % len(case["acl_texts"])]
     if "err" in r:
         lab.append("result=" + r["err"])
@@ -410,12 +735,44 @@ def stats(case, r):
     return lab
 
 
+def _op_drops(ops):
+    for i in range(len(ops)):
+        yield ops[:i] + ops[i + 1:]
+        if ops[i][0] == "b":
+            for sub in _op_drops(ops[i][3]):
+                yield ops[:i] + [ops[i][:3] + [sub]] + ops[i + 1:]
+
+
+def glue_shrink_candidates(case, drops):
+    gens = case["gens"]
+    for i in range(len(gens)):
+        if len(gens) > 1:
+            yield dict(case, gens=gens[:i] + gens[i + 1:])
+    for nt in drops(case["old"]):
+        yield dict(case, old=nt)
+    for i, g in enumerate(gens):
+        for ops in _op_drops(g["ops"]):
+            yield dict(case, gens=gens[:i] + [dict(g, ops=ops)] + gens[i + 1:])
+        if g["acl"]:
+            ls = g["acl"].split("\n")
+            for j in range(len(ls)):
+                if ls[j].strip():
+                    yield dict(case, gens=gens[:i] + [dict(g, acl="\n".join(ls[:j] + ls[j + 1:]))] + gens[i + 1:])
+    if case.get("no_new"):
+        yield dict(case, no_new=False)
+    if case.get("exclusive"):
+        yield dict(case, exclusive=False)
+
+
 def shrink_candidates(case):
     def drops(tree):
         for i in range(len(tree)):
             yield tree[:i] + tree[i + 1:]
             for sub in drops(tree[i][1]):
                 yield tree[:i] + [[tree[i][0], sub]] + tree[i + 1:]
+    if case.get("kind") == "glue":
+        yield from glue_shrink_candidates(case, drops)
+        return
     for side in ("old", "new"):
         for nt in drops(case[side]):
             yield dict(case, **{side: nt})
